@@ -60,7 +60,9 @@ def _mk_start(ss, kind, value):
 def _replay(ss, ps, hist):
     """Returns None or (index, expected, observed)."""
     h0 = hist[0]
-    seqr = ps.PacketSequencer(_mk_start(ss, h0["kind"], h0["value"]))
+    # all start objects of the history exist before it runs (a start is a value: creating another one does not change it)
+    prebuilt = {i: _mk_start(ss, ev["kind"], ev["value"]) for i, ev in enumerate(hist) if ev["op"] in ("init", "set")}
+    seqr = ps.PacketSequencer(prebuilt[0])
     cur = None
     for i, ev in enumerate(hist[1:], 1):
         if ev["op"] == "next":
@@ -76,7 +78,7 @@ def _replay(ss, ps, hist):
         elif ev["op"] == "resolve":
             cur.resolved = ev["value"]
         else:
-            cur = _mk_start(ss, ev["kind"], ev["value"])
+            cur = prebuilt[i]
             try:
                 seqr.set_sequence_start(cur)
             except Exception as e:      # SetStart is always enabled in the model
